@@ -108,9 +108,12 @@ def exact_failures(case, ob):
         na, nd = len(ob['awgs']), len(ob['dacs'])
         want_a = [a for a in range(na) if uses_awg(cm, r['chans'], a)]
         want_d = [d for d in range(nd) if uses_dac(masks, mm, r['meas'], d)]
-        if sorted(r['awgs']) != want_a or sorted(r['dacs']) != want_d:
-            out.append(('record', None, n, 'participation record of p%d is awgs=%r dacs=%r, the wiring says %r %r'
-                        % (n, r['awgs'], r['dacs'], want_a, want_d)))
+        if sorted(r['awgs']) != want_a:
+            out.append(('record_awg', None, n, 'participation record of p%d is awgs=%r, the wiring says %r'
+                        % (n, r['awgs'], want_a)))
+        if sorted(r['dacs']) != want_d:
+            out.append(('record_dac', None, n, 'participation record of p%d is dacs=%r, the wiring says %r'
+                        % (n, r['dacs'], want_d)))
     return out
 
 
@@ -153,6 +156,20 @@ def post_failures(case, k, prev, ob):
     else:
         if pv != nv:
             out.append(('regs_changed', None, name, '%s changed the registered programs' % kind))
+        if kind == 'update_params':
+            r = ob['regs'].get(name)
+            vl, pl = ob.get('vollog', []), prev.get('vollog', [])
+            if r is None or len(vl) != len(pl) + 1 or vl[0][0] != name or vl[0][1] != op['ptag']:
+                out.append(('post_update_log', None, name, 'update_parameters returned normally but the call log is %r' % (vl[:1],)))
+            else:
+                want = [a for a in range(len(ob['awgs'])) if uses_awg(ob['chmap'], r['chans'], a)]
+                if vl[0][2] != want:
+                    out.append(('post_update', None, name, 'update_parameters reached generators %r, the program uses %r'
+                                % (vl[0][2], want)))
+        elif len(ob.get('vollog', [])) != len(prev.get('vollog', [])):
+            out.append(('post_update_log', None, name, '%s called set_volatile_parameters' % kind))
+        if kind != 'run' and ob['cblog'] != prev['cblog']:
+            out.append(('post_run', None, name, '%s invoked a run callback' % kind))
         if kind in ('arm', 'run'):
             r = ob['regs'].get(name)
             if r is None:
@@ -178,61 +195,146 @@ def post_failures(case, k, prev, ob):
 def initial_obs(case):
     return {'err': None, 'chmap': {}, 'mmap': {}, 'regs': {},
             'awgs': [{'progs': {}, 'armed': None} for _ in case['awgs']],
-            'dacs': [{'wins': {}, 'armed': None} for _ in range(case['ndacs'])], 'cblog': []}
+            'dacs': [{'wins': {}, 'armed': None} for _ in range(case['ndacs'])], 'cblog': [], 'vollog': []}
+
+
+class Status:
+    """mirror of Spec.track_awg / track_dac: per side, the program names that are covered / lost (others are clean)"""
+
+    def __init__(self):
+        self.cov = {'awg': set(), 'dac': set()}
+        self.lost = {'awg': set(), 'dac': set()}
+
+    def kind(self, side, n):
+        if n in self.lost[side]:
+            return 'lost'
+        if n in self.cov[side]:
+            return 'covered'
+        return 'clean'
+
+    def step(self, case, op, prev, ob):
+        """status after operation `op` that took the observed objects from prev to ob (ob['err'] may be set)"""
+        kind = op['op']
+        masks = case['masks']
+        if kind in ('set_channel', 'rm_channel'):
+            cid = op['id']
+            old = {tuple(x) for x in prev['chmap'].get(cid, [])}
+            new = {tuple(x) for x in ob['chmap'].get(cid, [])}
+            if old != new:
+                self.cov['awg'] |= {n for n, r in prev['regs'].items() if cid in r['chans']}
+        elif kind == 'set_measurement':
+            nm = op['name']
+            old = {tuple(masks[i]) for i in prev['mmap'].get(nm, [])}
+            new = {tuple(masks[i]) for i in ob['mmap'].get(nm, [])}
+            if old != new:
+                self.cov['dac'] |= {n for n, r in prev['regs'].items() if nm in r['meas']}
+        elif kind == 'register':
+            if ob['err'] is None:
+                self.cov['awg'].discard(op['name'])
+                self.cov['dac'].discard(op['name'])
+        elif kind == 'remove':
+            self.cov['awg'].discard(op['name'])
+            self.cov['dac'].discard(op['name'])
+        elif kind == 'clear':
+            known_a = {s[0] for v in prev['chmap'].values() for s in v}
+            known_d = {masks[i][0] for v in prev['mmap'].values() for i in v}
+            for side, known, key in (('awg', known_a, 'awgs'), ('dac', known_d, 'dacs')):
+                for n in self.cov[side]:
+                    r = prev['regs'].get(n)
+                    if r is None or not set(r[key]) <= known:
+                        self.lost[side].add(n)
+                self.cov[side] = set()
+
+
+SIDE = {'awg_stale': 'awg', 'awg_missing': 'awg', 'awg_entry': 'awg', 'record_awg': 'awg',
+        'dac_stale': 'dac', 'dac_missing': 'dac', 'dac_entry': 'dac', 'record_dac': 'dac'}
+
+
+def excused(status, f):
+    """Is failure f of the plain routing invariant permitted by the framed invariant (Spec.framed_inv_awg / _dac and
+    the framed post-conditions proved in Coq)?  Then it is an instance of known finding C18-rewire-stale."""
+    clause, dev, name = f['clause'], f['dev'], f['name']
+    if clause in SIDE:                                   # exactness clauses: claimed for clean names only
+        return status.kind(SIDE[clause], name) != 'clean'
+    if clause == 'awg_armed_stale':                      # armed => held: claimed for every name that is not lost
+        return status.kind('awg', name) == 'lost'
+    if clause == 'dac_armed_stale':
+        return status.kind('dac', name) == 'lost'
+    if clause == 'post_gone':                            # removed / cleared name still on a device: only if lost
+        return status.kind(dev[0], name) == 'lost'
+    if clause == 'post_arm':                             # arm post-condition: claimed for clean names
+        return status.kind(dev[0], name) != 'clean'
+    if clause == 'post_update':
+        return status.kind('awg', name) != 'clean'
+    return False                                         # registry, callbacks, logs: never excused
+
+
+def framed_failures(case, ob, status):
+    """the clauses the framed invariant adds for covered names: registered, copies exactly on the recorded devices"""
+    out = []
+    for side, devs, held, key in (('awg', ob['awgs'], 'progs', 'awgs'), ('dac', ob['dacs'], 'wins', 'dacs')):
+        for n in sorted(status.cov[side] - status.lost[side]):
+            r = ob['regs'].get(n)
+            if r is None:
+                out.append(('covered_unregistered', (side, None), n, 'p%d is covered on the %s side but not registered' % (n, side)))
+                continue
+            holders = sorted(i for i, d in enumerate(devs) if n in d[held])
+            if holders != sorted(r[key]):
+                out.append(('covered_record', (side, None), n, 'p%d (wiring changed after registration) is held by %s %r '
+                            'but its record says %r' % (n, side, holders, sorted(r[key]))))
+    return out
 
 
 def all_failures(case, obs):
-    """[(step, clause, device, name, why, new)] for every step the specification speaks about"""
+    """[{step, clause, dev, name, why, excused}] for every step the specification speaks about"""
     prev = initial_obs(case)
     res = []
-    prev_keys = set()
+    status = Status()
     for k, ob in enumerate(obs['steps']):
         if ob['err'] is not None:
             if state_eq(prev, ob):
+                status.step(case, case['ops'][k], prev, ob)
                 prev = ob
                 continue
             break
-        fs = post_failures(case, k, prev, ob) + exact_failures(case, ob)
-        keys = set()
-        for (clause, dev, name, why) in fs:
-            key = (clause, dev, name)
-            keys.add(key)
-            res.append({'step': k, 'clause': clause, 'dev': dev, 'name': name, 'why': why, 'new': key not in prev_keys,
-                        'dirty_before': bool(prev_keys)})
-        prev_keys = {key for key in keys if not key[0].startswith('post') and key[0] != 'regs_changed'}
+        status.step(case, case['ops'][k], prev, ob)
+        for (clause, dev, name, why) in post_failures(case, k, prev, ob) + exact_failures(case, ob):
+            f = {'step': k, 'clause': clause, 'dev': dev, 'name': name, 'why': why}
+            f['excused'] = excused(status, f)
+            if f['excused']:
+                f['why'] += ' [name is %s: wiring of a name it uses was changed after registration]' % \
+                    status.kind(SIDE.get(clause) or (dev[0] if dev else 'awg'), name)
+            res.append(f)
+        for (clause, dev, name, why) in framed_failures(case, ob, status):
+            res.append({'step': k, 'clause': clause, 'dev': dev, 'name': name, 'why': why, 'excused': False})
         prev = ob
     return res
 
 
 def evaluate(case, obs):
+    """first failure; a failure that the framed invariant does not permit comes first if there is one"""
     fs = all_failures(case, obs)
+    for f in fs:
+        if not f['excused']:
+            return f
     return fs[0] if fs else None
 
 
-def classify_failure(case, obs, f):
-    """id of the known defect class that explains failure f, else None"""
-    if not f['new']:
-        return 'persisting'
-    op = case['ops'][f['step']]
-    kind, clause = op['op'], f['clause']
-    prev_regs = obs['steps'][f['step'] - 1]['regs'] if f['step'] > 0 else {}
-    if kind in WIRING_OPS and prev_regs and clause in ('awg_stale', 'awg_missing', 'awg_entry', 'dac_stale', 'dac_missing',
-                                                       'dac_entry', 'record'):
+def classify(case, obs, first=None):
+    """C18-rewire-stale iff every failure is one the framed invariant permits (and there is at least one)"""
+    fs = all_failures(case, obs)
+    if fs and all(f['excused'] for f in fs):
         return 'C18-rewire-stale'
-    if f['dirty_before']:
-        # the invariant was already violated (by one of the classes above) before this call: knock-on effects of a
-        # stale copy (it changes clause when its name is removed / re-registered) are not attributed separately
-        return 'persisting'
     return None
 
 
-def classify(case, obs, first):
-    fs = all_failures(case, obs)
-    ids = []
-    for f in fs:
-        c = classify_failure(case, obs, f)
-        if c is None:
-            return None
-        if c != 'persisting':
-            ids.append(c)
-    return ids[0] if ids else None
+def statuses(case, obs):
+    """final Status (for histograms)"""
+    prev = initial_obs(case)
+    status = Status()
+    for k, ob in enumerate(obs['steps']):
+        if ob['err'] is not None and not state_eq(prev, ob):
+            break
+        status.step(case, case['ops'][k], prev, ob)
+        prev = ob
+    return status
